@@ -466,10 +466,23 @@ func (b BrokenFeatures) Error() string {
 }
 
 func (b *BasicWorldBuilder) Finish(o *BuildOptions) (b6.World, error) {
+	// Areas are validated against the paths they reference, so paths are
+	// validated, and broken ones removed, before any area is considered:
+	// otherwise an area could be accepted because of a path that's
+	// subsequently deleted.
 	stages := []func(toIndex chan<- Feature, byID *FeaturesByID){
 		func(c chan<- Feature, features *FeaturesByID) {
 			for _, feature := range *features {
-				c <- feature
+				if feature.FeatureID().Type != b6.FeatureTypeArea {
+					c <- feature
+				}
+			}
+		},
+		func(c chan<- Feature, features *FeaturesByID) {
+			for _, feature := range *features {
+				if feature.FeatureID().Type == b6.FeatureTypeArea {
+					c <- feature
+				}
 			}
 		},
 	}
